@@ -167,7 +167,13 @@ impl<T: Read + Seek, S: ReadableShape> Iterator for ShapeIterator<'_, T, S> {
             return None;
         }
         let (hdr, shape) = match read_one_shape_as::<T, S>(self.source) {
-            Err(e) => return Some(Err(e)),
+            Err(e) => {
+                // The position in the source is unknown after a failed read: without an
+                // index there is nothing to resynchronise on and the iteration ends here,
+                // with an index the next record is always seeked to.
+                self.current_pos = usize::MAX;
+                return Some(Err(e));
+            }
             Ok(hdr_and_shape) => hdr_and_shape,
         };
         // read_one_shape_as made sure the record size is not negative
